@@ -1394,6 +1394,70 @@ func (w *world) buildR3(m *mem, deviate bool) *item {
 	return it
 }
 
+// buildSecond builds the SECOND round-3 message of member m (Two): a fresh, in itself well-formed confirm or complaint.
+// Every member speaks once in round 3 (both handlers refuse a member that "already submit confirm / complaint
+// message"): the second message must be refused and leave no trace - above all it must not count as another member
+// having spoken, or the round ends before an honest member could complain.
+func (w *world) buildSecond(m *mem) *item {
+	first := m.lastMsg[3]
+	if w.chainStatus() != tsstypes.GROUP_STATUS_ROUND_3 || !m.haveDKG || first == nil || first.msg == nil {
+		w.v.Count("second_inapplicable", 1)
+		return nil
+	}
+	kind := first.kind
+	if m.spec.Two&twoOther != 0 {
+		kind = map[string]string{"confirm": "complain", "complain": "confirm"}[first.kind]
+	}
+	it := &item{kind: kind, label: "second:" + first.kind + "-" + kind, m: m, sender: m.acct, claimed: m.id, wellFormed: true, second: true}
+	switch kind {
+	case "confirm":
+		priv := m.priv
+		ownOK := m.committed != nil && ref.TSSEvalPoly(m.dealt, uint64(m.id)).Cmp(ref.TSSEvalPoly(m.committed, uint64(m.id))) == 0
+		if priv == nil { // the member was dealt a bad share: it has no key share to confirm with
+			priv = tssworld.ScalarFrom("c04-second-nopriv", w.c.Seed, m.idx)
+			ownOK = false
+		}
+		sig, err := tss.SignOwnPubKey(m.id, w.gr.DKGContext, priv.Point(), priv)
+		if err != nil {
+			w.fail("harness", "SignOwnPubKey: %v", err)
+			return nil
+		}
+		it.priv, it.wellFormed = priv, ownOK
+		it.msg = tsstypes.NewMsgConfirm(w.gid, m.id, sig, m.acct.Addr.String())
+	case "complain":
+		r := w.target(m, m.spec.To+1)
+		c, ok := w.genuineComplaint(m, r)
+		if !ok {
+			w.v.Count("second_inapplicable", 1)
+			return nil
+		}
+		it.complaints = []cdesc{w.describe(m, *c, true, "second")}
+		it.msg = tsstypes.NewMsgComplain(w.gid, []tsstypes.Complaint{*c}, m.acct.Addr.String())
+	default:
+		return nil
+	}
+	w.dev(m, "r3:two-messages")
+	w.v.Class("r3-two-messages:" + first.kind + "-" + kind)
+	if first.label == "honest" || first.label == "honest+altenc" {
+		w.v.Class("r3-two-messages:first-is-daemon-message")
+	} else {
+		w.v.Class("r3-two-messages:first-is-" + first.label)
+	}
+	same := false
+	for _, p := range w.pending {
+		same = same || p == first
+	}
+	if same {
+		w.v.Class("r3-two-messages:same-block")
+	} else {
+		w.v.Class("r3-two-messages:later-block")
+	}
+	if it.wellFormed {
+		m.inFlight[3] = true
+	}
+	return it
+}
+
 // buildExtra builds an injected message that must be rejected: sent out of its round, or by an account that is
 // not the claimed member.
 func (w *world) buildExtra(x c04Extra) *item {
@@ -1547,6 +1611,28 @@ func (w *world) observe(res *sim.BlockResult) {
 		tr := res.Resp.TxResults[i]
 		exp, certain, why := w.expect(it)
 		got := tr.Code == 0
+		if it.second && w.doubleAt == 0 {
+			w.doubleAt = res.Height
+		}
+		if it.kind == "complain" && it.honest && it.m != nil && it.m.strict && w.doubleAt > 0 && res.Height > w.doubleAt {
+			for _, d := range it.complaints {
+				if d.genuine && d.expectSuccess {
+					w.v.Class("honest-complaint-after-double-message")
+					break
+				}
+			}
+		}
+		if certain && !exp && got && it.second && why == "already submitted" {
+			// The member was heard twice. That alone breaks the one-message-per-member contract; it is reported at the end
+			// of the run (C04/bad-accepted) unless one of the guarantees it endangers breaks first: the model goes on with
+			// the member counted ONCE, so the round may not end before everybody else has spoken.
+			if w.deferred == "" {
+				w.deferred = fmt.Sprintf("%s of member %d (%s) at height %d was accepted although the member had already sent its round-3 message (n=%d t=%d)",
+					it.kind, it.m.id, it.label, res.Height, w.n, w.t)
+			}
+			w.v.Class("r3-second-message-accepted")
+			certain = false
+		}
 		if certain && exp != got {
 			who := fmt.Sprint("outsider as member ", it.claimed)
 			if it.m != nil {
@@ -1811,6 +1897,18 @@ func (w *world) endBlock(res *sim.BlockResult) {
 		w.fail("C04/active-left", "group left ACTIVE: %v", got)
 		return
 	}
+	if !w.accBroken && w.status == tsstypes.GROUP_STATUS_ROUND_3 && len(w.set[3]) < w.n &&
+		(got == tsstypes.GROUP_STATUS_ACTIVE || got == tsstypes.GROUP_STATUS_FALLEN) {
+		var silent []tss.MemberID
+		for _, m := range w.mems {
+			if !w.set[3][m.id] {
+				silent = append(silent, m.id)
+			}
+		}
+		w.fail("C04/round3-ended-before-all-spoke", "height %d: group is %v although members %v have not sent their round-3 message and the creation period (created %d + %d) is not over; %s",
+			res.Height, got, silent, w.created, w.c.Period, w.deferred)
+		return
+	}
 	if !w.accBroken && got != w.status {
 		w.fail("C04/status-model", "height %d: group status %v, model %v (n=%d t=%d created=%d period=%d, submitted r1=%d r2=%d r3=%d)", res.Height, got, w.status,
 			w.n, w.t, w.created, w.c.Period, len(w.set[1]), len(w.set[2]), len(w.set[3]))
@@ -1830,6 +1928,10 @@ func (w *world) endBlock(res *sim.BlockResult) {
 	// round counters = number of accepted submissions (rejected ones leave them unchanged)
 	k, ctx := w.ch.App.TSSKeeper, w.ch.Ctx()
 	c1, c2, c3 := k.GetRound1InfoCount(ctx, w.gid), k.GetRound2InfoCount(ctx, w.gid), k.GetConfirmComplainCount(ctx, w.gid)
+	if w.deferred != "" { // a member was heard twice: the round-3 counter no longer means "members that have spoken"
+		w.v.Count("round3_counter_not_compared", 1)
+		return
+	}
 	if c1 != uint64(len(w.set[1])) || c2 != uint64(len(w.set[2])) || c3 != uint64(len(w.set[3])) {
 		w.fail("C04/counters", "height %d: round counters (%d,%d,%d), accepted submissions (%d,%d,%d)", res.Height, c1, c2, c3, len(w.set[1]), len(w.set[2]), len(w.set[3]))
 		return
@@ -2071,14 +2173,62 @@ func (w *world) stageActions(stage int) []action {
 		needs := func(mi int) bool { r := w.mems[mi].spec.R1; return r == "replay" || r == "negate" }
 		sort.SliceStable(order, func(a, b int) bool { return !needs(order[a]) && needs(order[b]) })
 	}
+	firstVictim := -1
+	if stage == 3 {
+		// Two&twoVictimLate: the member that speaks twice goes first, the protocol-following members with a justified
+		// complaint go last, after a block boundary
+		for di, d := range w.mems {
+			if d.spec.Two&twoOn == 0 || d.spec.Two&twoVictimLate == 0 || d.spec.R3 == "stop" {
+				continue
+			}
+			victim := func(mi int) bool {
+				v := w.mems[mi]
+				if mi == di || !v.strict {
+					return false
+				}
+				for _, j := range w.others(v) {
+					if w.bad(j, v) {
+						return true
+					}
+				}
+				return false
+			}
+			rank := func(mi int) int {
+				switch {
+				case mi == di:
+					return 0
+				case victim(mi):
+					return 2
+				}
+				return 1
+			}
+			sort.SliceStable(order, func(a, b int) bool { return rank(order[a]) < rank(order[b]) })
+			for _, mi := range order {
+				if victim(mi) {
+					firstVictim = mi
+					break
+				}
+			}
+			break
+		}
+	}
 	for _, mi := range order {
 		sp := w.mems[mi].spec
 		if stage == 1 && (sp.R1 == "replay" || sp.R1 == "negate") {
 			acts = append(acts, action{what: "cut"})
 		}
+		if mi == firstVictim {
+			acts = append(acts, action{what: "cut"})
+		}
 		acts = append(acts, action{what: "main", mi: mi})
 		if []bool{false, sp.Dup1, sp.Dup2, sp.Dup3}[stage] {
 			acts = append(acts, action{what: "dup", mi: mi})
+		}
+		if stage == 3 && sp.Two&twoOn != 0 && sp.R3 != "stop" {
+			if sp.Two&twoCut != 0 {
+				acts = append(acts, action{what: "cut"})
+			}
+			acts = append(acts, action{what: "second", mi: mi})
 		}
 	}
 	for _, x := range w.c.Extras {
@@ -2124,8 +2274,15 @@ func (w *world) enqueue(stage int, a action) {
 		return
 	}
 	m := w.mems[a.mi]
+	if a.what == "second" {
+		w.push(w.buildSecond(m))
+		return
+	}
 	dev := []string{"", m.spec.R1, m.spec.R2, m.spec.R3}[stage]
 	deviate := a.what == "main" && dev != ""
+	if stage == 3 && a.what == "main" && dev == "" && m.spec.Two&twoOn != 0 && m.spec.Two&twoComplain != 0 {
+		m.forceR3 = "false"
+	}
 	if a.what == "fix" && m.inFlight[stage] {
 		return
 	}
@@ -2191,7 +2348,7 @@ func runC04(c c04Case) *pbt.Verdict {
 	for i := 0; i < n; i++ {
 		sp := c.Members[i]
 		m := &mem{idx: i, id: tss.MemberID(i + 1), acct: ch.Users[i], spec: sp}
-		m.strict = sp.R1 == "" && sp.R2 == "" && sp.R3 == "" && !sp.Dup1 && !sp.Dup2 && !sp.Dup3 && !extraBy[i]
+		m.strict = sp.R1 == "" && sp.R2 == "" && sp.R3 == "" && !sp.Dup1 && !sp.Dup2 && !sp.Dup3 && !extraBy[i] && sp.Two&twoOn == 0
 		w.mems = append(w.mems, m)
 		addrs = append(addrs, m.acct.Addr)
 	}
@@ -2263,6 +2420,9 @@ func runC04(c c04Case) *pbt.Verdict {
 
 func (w *world) finish() *pbt.Verdict {
 	v := w.v
+	if w.ok() && w.deferred != "" {
+		w.fail("C04/bad-accepted", "%s", w.deferred)
+	}
 	if w.ok() && w.gr != nil {
 		st := w.gr.Group.Status
 		switch st {
